@@ -92,6 +92,11 @@ structure DState where
   ref : RefFs.State := RefFs.State.init
   refHandles : List (Nat × RefHandle) := []
   snapshot : List Row := []
+  /-- what a `@cuttape` left at the end of the drive (not part of `World`: histories with torn
+      tails are outside the theorems, the driver only predicts what opening over them does) -/
+  tail : Torn := .clean
+  /-- the model has given up on this history (a write after a torn, unaligned tail) -/
+  unmodelled : Bool := false
 deriving Inhabited
 
 def kvs (fields : List String) : List (String × String) :=
@@ -272,6 +277,12 @@ def step (s : DState) (line : String) : DState × List String :=
     let (idx, e) := rebuildCut s.fs.c s.w.tape (c.toNat?.getD 0)
     (s, ["call\t@rebuildcut\t" ++ c, (match e with | none => "res\tok" | some e => "res\t" ++ encErr e)] ++
         idx.rows.map encRow ++ ["refres\t-", "end"])
+  | "call" :: "@cuttape" :: c :: _ =>
+    -- the drive loses everything from byte c on (a crash); the process is gone too
+    let (pre, torn) := cutAt s.w.tape 0 (c.toNat?.getD 0)
+    let s' := { s with w := { s.w with tape := pre, stuck := false }, tail := torn, handles := [], refHandles := [] }
+    (s', ["call\t@cuttape\t" ++ c, "res\tok"] ++ observe s'.w s' ++
+      (match torn with | .clean => [] | _ => ["trig\ttornTail"]) ++ ["refres\t-"] ++ encTree s'.ref ++ ["end"])
   | "call" :: "@snapshot" :: _ =>
     let s' := { s with snapshot := s.w.idx.rows }
     (s', ["call\t@snapshot", "res\tok"] ++ observe s.w s' ++ ["refres\t-"] ++ encTree s'.ref ++ ["end"])
@@ -286,12 +297,52 @@ def step (s : DState) (line : String) : DState × List String :=
     let idx := (idx0.getRootPath).1      -- `MetadataPersister.Open` caches the root when there is one
     let fs := { s.fs with readOnly := if args.contains "ro=1" then true else if args.contains "ro=0" then false else s.fs.readOnly }
     let s' := { s with fs := fs, w := { s.w with idx := idx, stuck := false }, handles := [], refHandles := [] }
-    (s', ["call\t@reopen\t" ++ "\t".intercalate args, "res\tok"] ++ observe s.w s' ++ ["refres\t-"] ++ encTree s'.ref ++ ["end"])
+    let stale := mode == some "snap" && s.snapshot != s.w.idx.rows
+    (s', ["call\t@reopen\t" ++ "\t".intercalate args, "res\tok"] ++ observe s.w s' ++
+      (if stale then ["trig\tstaleIndexOpened"] else []) ++ ["refres\t-"] ++ encTree s'.ref ++ ["end"])
   | "call" :: method :: args =>
+    if s.unmodelled then (s, ["call\t" ++ method ++ "\t" ++ "\t".intercalate args, "unmodelled", "trig\tappendAfterTornTail", "end"]) else
+    let tornTail := match s.tail with | .clean => false | _ => true
+    let isWrite := ["mkdir", "mkdirall", "remove", "removeall", "rename", "chmod", "chown", "chtimes", "symlink", "create", "openfile", "hclose", "hsync"].contains method
+    if tornTail && isWrite then
+      ({ s with unmodelled := true }, ["call\t" ++ method ++ "\t" ++ "\t".intercalate args, "unmodelled", "trig\tappendAfterTornTail", "end"]) else
+    if tornTail && method == "initialize" then
+      -- `Initialize` over a torn tail: existing root → return it; else rebuild (contract R1–R4)
+      (match (s.w.idx.getRootPath) with
+       | (idx, .ok r) =>
+         let s' := { s with w := { s.w with idx := idx } }
+         (s', ["call\t" ++ method ++ "\t" ++ "\t".intercalate args, "res\tok\t" ++ encName r] ++ observe s.w s' ++ ["trig\ttornTail", "refres\t-"] ++ encTree s'.ref ++ ["end"])
+       | (_, .error _) =>
+         let full : Tape := s.w.tape
+         let pos := posOfBlock s.fs.c.rs (tapeBlocks full)
+         let (p0, e0) := indexLoopIdeal s.fs.c false 0 .tape {} 0 0 full
+         let (p1, e1) : Idx × Option Err := match e0 with
+           | some e => (p0, some e)
+           | none => match s.tail with
+             | .content h => (match applyRec s.fs.c p0 pos h false with
+                 | (p', some e) => (p', some e)
+                 | (p', none) => (p', some .unexpectedEOF))
+             | .padding h => applyRec s.fs.c p0 pos h false
+             | _ => (p0, none)
+         match e1 with
+         | none =>
+           let (idx, r) := p1.getRootPath
+           let s' := { s with w := { s.w with idx := idx } }
+           (s', ["call\t" ++ method ++ "\t" ++ "\t".intercalate args,
+                 (match r with | .ok n => "res\tok\t" ++ encName n | .error e => "res\t" ++ encErr e)] ++ observe s.w s' ++
+                 ["trig\ttornTail", "refres\t-"] ++ encTree s'.ref ++ ["end"])
+         | some _ =>
+           -- the rebuild fails: `mkdirRoot` appends behind the torn tail — outside the model
+           ({ s with unmodelled := true }, ["call\t" ++ method ++ "\t" ++ "\t".intercalate args, "unmodelled",
+             "trig\trebuildFailsAtOpen\tappendAfterTornTail", "end"]))
+    else
     let before := s.w
     let trigs := match parseCall method args with
       | some c => Trig.eval s.fs { w := s.w, handles := s.handles } c
       | none => []
+    let trigs := trigs ++ (if method == "initialize" && (s.w.idx.getRootPath).2.toBool == false && s.w.tape != [] &&
+        (rebuildOp s.fs s.w).2.isSome then ["rebuildFailsAtOpen"] else []) ++
+      (if method == "@reopen" then [] else [])
     let (s', res) := runCall s method args
     let trigs := trigs ++ (Trig.evalPost s'.fs { w := s'.w, handles := s'.handles }).filter (fun t => !trigs.contains t)
     let (s', refres) := refCall s' method args
